@@ -158,6 +158,8 @@ func (i *interpreter) resetPath(prefix []decision) {
 	i.side = map[any]any{}
 	i.sched = newScheduler(i)
 	i.clock = nil
+	i.methodLookups = nil
+	i.methodCalls = nil
 }
 
 func newInterpreter(p *program, res *results) *interpreter {
@@ -190,6 +192,8 @@ func newInterpreter(p *program, res *results) *interpreter {
 // runPath executes one path of harness fn under the given decision prefix.
 func (i *interpreter) runPath(fn *ssa.Function, prefix []decision) (alts [][]decision) {
 	i.resetPath(prefix)
+	i.solver.BeginPath()
+	defer i.solver.EndPath()
 	c := i.path
 	hname := i.cfg.Name
 	res := i.results
